@@ -4,7 +4,6 @@
 -/
 import Manticore.Model.C16
 import Manticore.Lemmas.Endian
-import Manticore.Props.C16.Consts
 namespace Manticore.C16
 open Manticore
 
